@@ -1118,3 +1118,66 @@ func (c *Ctx) requestLocalTypes(laW, laR *lockAnalysis) map[string]bool {
 	}
 	return out
 }
+
+// ---------------------------------------------------------------------------
+// L8: functions that must run entirely inside the muxer's critical section
+
+func init() {
+	registerRule("L8", "one critical section: per-stream rotations and every playlist generator are only ever entered with Muxer.mutex held (all streams are cut, and each playlist is rendered, in one critical section)", ruleL8)
+}
+
+func ruleL8(c *Ctx) *RuleResult {
+	r := &RuleResult{Floor: 6, FloorWhat: "functions that must be entered with the muxer mutex held"}
+	li := c.locks()
+	cls := li.byField[c.Field("", "Muxer", "mutex")]
+	if cls == nil {
+		r.undecided("lock class Muxer.mutex not found")
+		return r
+	}
+	la := c.muxerLockAnalysis()
+	targets := []struct{ typ, name, why string }{
+		{"muxerStream", "rotateSegments", "all streams of a muxer are cut inside one critical section"},
+		{"muxerStream", "rotateParts", "all streams of a muxer rotate their parts inside one critical section"},
+		{"Muxer", "rotateSegmentsInner", "the loop over all streams runs under the lock"},
+		{"Muxer", "rotatePartsInner", "the loop over all streams runs under the lock"},
+		{"muxerStream", "generateMediaPlaylistFMP4", "a media playlist is a snapshot of one muxer state"},
+		{"muxerStream", "generateMediaPlaylistMPEGTS", "a media playlist is a snapshot of one muxer state"},
+		{"Muxer", "generateMultivariantPlaylist", "the multivariant playlist is a snapshot of one muxer state"},
+		{"muxerStream", "populateMultivariantPlaylist", "codec parameters are read under the lock their writer takes"},
+		{"muxerStream", "hasPart", "the blocking-reload predicate is evaluated under the lock"},
+		{"muxerStream", "hasContent", "the wait predicate is evaluated under the lock"},
+	}
+	for _, t := range targets {
+		fn := c.Method("", t.typ, t.name)
+		key := t.typ + "." + t.name + "|entry-lockset"
+		if fn == nil {
+			r.undecided("%s.%s not found", t.typ, t.name)
+			continue
+		}
+		ctxs := la.ctxsOf[fn]
+		if len(ctxs) == 0 {
+			r.fail(key, c.Pos(fn.Pos()), FuncName(fn), t.why+": "+cls.Name+" is held at every entry", "the function is not reachable from any muxer entry point")
+			continue
+		}
+		bad := ""
+		for _, fc := range ctxs {
+			if !fc.must.hasW(cls) {
+				bad = "entered with must-held set " + li.names(fc.must)
+			}
+		}
+		if bad == "" {
+			r.ok(key, c.Pos(fn.Pos()), FuncName(fn), t.why+": "+cls.Name+" is held at every entry", fmt.Sprintf("%d calling context(s), all hold it", len(ctxs)))
+		} else {
+			var chain []string
+			for _, e := range c.callersOf(fn) {
+				if e.Site != nil {
+					if must, _, ok := la.heldAt(e.Site); ok && !must.hasW(cls) {
+						chain = append(chain, "called without the lock at "+c.Pos(e.Site.Pos())+" in "+FuncName(e.Caller.Func))
+					}
+				}
+			}
+			r.fail(key, c.Pos(fn.Pos()), FuncName(fn), t.why+": "+cls.Name+" is held at every entry", bad, chain...)
+		}
+	}
+	return r
+}
